@@ -144,6 +144,38 @@ class Facts:
             extra = [f for f in fields if f['name'] not in cnames]
             if not missing or not extra:
                 continue
+            # (a) state moved into a nested private struct of this crate (fields grouped into a sub-struct, a value wrapped in
+            # a private newtype): located at an index path, by name first, then by type in declaration order
+            leaves = []     # (index path, field json)
+            for f in extra:
+                sub = self.adts.get(f['ty'].get('path')) if f['ty'].get('k') == 'adt' else None
+                if sub is None or sub.get('crate') != a.get('crate') or sub.get('kind') != 'struct' or f['ty'].get('path') in canon \
+                        or dict.__contains__(self.adts, f['ty'].get('path')) and self.adts[f['ty']['path']] is a:
+                    continue
+                for j, g in enumerate(sub['variants'][0]['fields']):
+                    leaves.append(((fields.index(f), j), g))
+            if leaves:
+                taken = set()
+                paths, leaf_ty = {}, {}
+                for n, t in missing:
+                    c = [(pth, g) for pth, g in leaves if g['name'] == n and g['ty'].get('s') == t and pth not in taken]
+                    if len(c) == 1:
+                        taken.add(c[0][0]); paths[n] = list(c[0][0]); leaf_ty[n] = c[0][1]['ty']
+                for n, t in missing:
+                    if n in paths:
+                        continue
+                    c = [(pth, g) for pth, g in leaves if g['ty'].get('s') == t and pth not in taken]
+                    if c:
+                        taken.add(c[0][0]); paths[n] = list(c[0][0]); leaf_ty[n] = c[0][1]['ty']
+                if paths:
+                    a['canon_paths'] = paths
+                    a['canon_leaf_ty'] = leaf_ty
+                    self.field_aliases.setdefault(path, {}).update({n: 'nested at %s' % '.'.join(str(i) for i in pth) for n, pth in paths.items()})
+                    missing = [(n, t) for n, t in missing if n not in paths]
+                    used_outer = {pth[0] for pth in paths.values()}
+                    extra = [f for f in extra if fields.index(f) not in used_outer]
+            if not missing or not extra:
+                continue
             used = set()
             for n, t in missing:
                 cands = [f for f in extra if f['ty'].get('s') == t and id(f) not in used]
